@@ -12,16 +12,16 @@ PINS = os.path.join(HERE, "pins.json")
 
 # property -> list of "path" (whole file) or "path::fn_a,fn_b" (the named functions, every definition of that name in the file)
 SPEC = {
-    "C01": ["samply/src/import/perf.rs::convert_impl", "samply/src/linux_shared/processes.rs", "samply/src/linux_shared/process_threads.rs", "samply/src/linux_shared/thread.rs",
+    "C01": ["samply/src/import/perf.rs", "samply/src/linux_shared/processes.rs", "samply/src/linux_shared/process_threads.rs", "samply/src/linux_shared/thread.rs",
             "samply/src/shared/unresolved_samples.rs",
             "samply/src/linux_shared/converter.rs::handle_main_event_sample,handle_fork,handle_exit,handle_comm,handle_exec,handle_thread_rename,handle_context_switch,finish",
             "samply/src/linux_shared/process.rs::notify_dead,finish,recycle_or_get_new_thread",
             "samply/src/shared/process_sample_data.rs::flush_samples_to_profile", "samply/src/linux_shared/converter.rs::get_sample_stack",
             "samply/src/shared/recycling.rs", "samply/src/linux_shared/process.rs::new,rename_with_recycling,rename_without_recycling"],
-    "C17": ["samply/src/import/perf.rs::convert_impl", "samply/src/linux_shared/processes.rs", "samply/src/linux_shared/process_threads.rs", "samply/src/linux_shared/thread.rs",
+    "C17": ["samply/src/import/perf.rs", "samply/src/linux_shared/processes.rs", "samply/src/linux_shared/process_threads.rs", "samply/src/linux_shared/thread.rs",
             "samply/src/linux_shared/converter.rs::handle_fork,handle_exit,handle_comm,handle_exec,handle_thread_rename",
             "samply/src/linux_shared/process.rs::notify_dead,finish,rename_without_recycling,recycle_or_get_new_thread"],
-    "C02": ["samply/src/shared/lib_mappings.rs", "samply/src/shared/process_sample_data.rs::flush_samples_to_profile",
+    "C02": ["samply/src/shared/lib_mappings.rs", "samply/src/shared/process_sample_data.rs", "samply/src/shared/stack_converter.rs",
             "samply/src/linux_shared/converter.rs::handle_fork,handle_comm,get_sample_stack,compute_base_avma,add_module_to_process",
             "samply/src/shared/unresolved_samples.rs", "fxprof-processed-profile/src/library_info.rs", "fxprof-processed-profile/src/global_lib_table.rs"],
     "C03": ["fxprof-processed-profile/src/frame_table.rs", "fxprof-processed-profile/src/func_table.rs", "fxprof-processed-profile/src/stack_table.rs",
@@ -29,31 +29,32 @@ SPEC = {
             "fxprof-processed-profile/src/string_table.rs", "fxprof-processed-profile/src/thread_string_table.rs", "fxprof-processed-profile/src/marker_table.rs", "fxprof-processed-profile/src/category.rs",
             "fxprof-processed-profile/src/profile.rs::sorted_threads,add_marker,set_marker_stack,handle_for_stack,handle_for_native_symbol,handle_for_category,handle_for_subcategory,"
             "handle_for_frame_with_label_internal,handle_for_frame_with_address_internal,handle_for_frame_with_address_and_symbol_internal,add_process,add_thread,make_unique_pid_or_tid,"
-            "handle_for_stack_frames,add_allocation_sample", "fxprof-processed-profile/src/process.rs::thread_handle_for_allocations"],
+            "handle_for_stack_frames,add_allocation_sample", "fxprof-processed-profile/src/process.rs", "fxprof-processed-profile/src/thread.rs", "fxprof-processed-profile/src/frame.rs"],
     "C04": ["fxprof-processed-profile/src/sample_table.rs", "fxprof-processed-profile/src/counters.rs", "fxprof-processed-profile/src/cpu_delta.rs",
             "fxprof-processed-profile/src/thread.rs::add_sample,add_sample_same_stack_zero_cpu", "fxprof-processed-profile/src/profile.rs::add_sample,add_sample_same_stack_zero_cpu,add_counter_sample"],
     "C05": ["samply-symbols/src/symbol_map_object.rs::new,lookup_relative_address,lookup_sync,file_offset_to_svma,name", "samply-symbols/src/jitdump.rs::lookup_sync,lookup_relative_address",
-            "samply-symbols/src/breakpad/symbol_map.rs::lookup_sync"],
+            "samply-symbols/src/breakpad/symbol_map.rs::lookup_sync", "samply-symbols/src/symbol_map.rs"],
     "C06": ["samply-symbols/src/lib.rs::load_symbol_map,load_binary,load_symbol_map_from_location,load_binary_at_location",
             "samply-symbols/src/elf.rs::get_symbol_map_for_debug_link_candidate,try_to_get_symbol_map_from_debug_link,try_to_load_supplementary_file,compute_debug_link_crc_of_file_contents",
             "samply-symbols/src/macho.rs::get_fat_archive_member,get_fat_archive_members_impl,get_symbol_map_for_fat_archive_member", "samply-symbols/src/debugid_util.rs"],
-    "C07": ["samply-api/src/symbolicate/mod.rs", "samply-api/src/lib.rs::to_debug_id"],
+    "C07": ["samply-api/src/symbolicate/mod.rs", "samply-api/src/symbolicate/looked_up_addresses.rs", "samply-api/src/symbolicate/response_json.rs", "samply-api/src/symbolicate/request_json.rs",
+            "samply-api/src/lib.rs", "samply-symbols/src/symbol_map.rs"],
     "C08": ["samply-api/src/hex.rs", "samply-api/src/lib.rs::query_api,to_debug_id", "samply-symbols/src/shared.rs::from_str",
             "samply-symbols/src/breakpad/index.rs::parse_symindex_file", "samply-symbols/src/breakpad/symbol_map.rs::make_symbol_map,lookup_sync",
             "samply-symbols/src/mapped_path.rs::hg_path,git_path,s3_path,cargo_path,parse_special_path"],
-    "C09": ["samply-api/src/source/mod.rs", "samply-symbols/src/lib.rs::load_source_file", "samply-symbols/src/symbol_map.rs::lookup"],
+    "C09": ["samply-api/src/source/mod.rs", "samply-symbols/src/lib.rs::load_source_file", "samply-symbols/src/symbol_map.rs", "samply-api/src/lib.rs"],
     "C10": ["samply-symbols/src/breakpad/index.rs", "samply-symbols/src/breakpad/symbol_map.rs"],
     "C11": ["fxprof-processed-profile/src/lib_mappings.rs", "fxprof-processed-profile/src/profile.rs::resolve_frame_address,add_lib_mapping,remove_lib_mapping,add_kernel_lib_mapping,remove_kernel_lib_mapping,clear_process_lib_mappings"],
     "C12": ["samply/src/shared/context_switch.rs"],
     "C13": ["samply-symbols/src/cache.rs", "samply-symbols/src/chunked_read_buffer_manager.rs"],
-    "C14": ["samply/src/shared/stack_depth_limiting_frame_iter.rs", "samply/src/shared/process_sample_data.rs::flush_samples_to_profile", "samply/src/shared/stack_converter.rs"],
+    "C14": ["samply/src/shared/stack_depth_limiting_frame_iter.rs", "samply/src/shared/process_sample_data.rs", "samply/src/shared/stack_converter.rs"],
     "C15": ["samply-quota-manager/src/file_inventory.rs", "samply-quota-manager/src/quota_manager.rs"],
     "C16": ["wholesym/src/file_creation.rs", "wholesym/src/breakpad.rs::write_symindex", "wholesym/src/downloader.rs::download_to_file"],
     "C18": ["samply/src/server.rs::generate_token,symbolication_service,start_server"],
     "C19": ["fxprof-processed-profile/src/library_info.rs", "samply/src/profile_json_preparse.rs", "wholesym/src/helper.rs::add_known_lib,fill_in_library_info_details",
             "samply-symbols/src/shared.rs::from_str,fmt", "samply/src/linux_shared/converter.rs::add_module_to_process,library_info_with_object", "samply/src/shared/utils.rs::open_file_with_fallback",
             "samply-symbols/src/debugid_util.rs", "samply/src/shared/save_profile.rs"],
-    "C20": ["samply-api/src/asm/mod.rs", "samply-symbols/src/binary_image.rs::read_bytes_at_relative_address"],
+    "C20": ["samply-api/src/asm/mod.rs", "samply-api/src/asm/request_json.rs", "samply-api/src/asm/response_json.rs", "samply-symbols/src/binary_image.rs::read_bytes_at_relative_address"],
 }
 
 
